@@ -98,6 +98,9 @@ pub fn check_msg(m: &M, st: &mut Stats) -> Result<(), String> {
                     return Err(format!("{}: Frame::read of the wire text gives {back4:?}, Frame::from_bytes gives {back:?}", m.short()));
                 }
                 let msg2 = Message::from(back);
+                if msg2 == msg && h64(&msg2) != h64(&msg) {
+                    return Err(format!("{}: the message that came back equals the one sent but hashes differently", m.short()));
+                }
                 if msg2 != msg {
                     let len = match m {
                         M::Data { data, .. } => data.len().min(2),
@@ -261,6 +264,16 @@ pub fn run(ctx: &Ctx) {
             Ok(())
         },
     );
+
+    crate::engine::with_logging(|| {
+        run_generated(
+            ctx,
+            "data-generated+logging",
+            ctx.tier.pick(20_000, 200_000),
+            || data_msg_strategy().prop_map(|msg| MsgCase { msg }),
+            |c, st| check_msg(&c.msg, st),
+        );
+    });
 
     run_generated(
         ctx,
